@@ -40,7 +40,7 @@ Overlap(r)  == Dot(r.xn, r.xn) <= RR(r) * RR(r) * r.W * r.W
 ClearGap(r) == Dot(r.xn, r.xn) * r.G * r.G > (RR(r) * r.G + 1) * (RR(r) * r.G + 1) * r.W * r.W
 
 Clauses == <<"NoException", "Finite", "ORACLE_CertInvalid", "InA", "InB", "Consistent", "Optimal",
-             "ZeroImpliesCommonPoint", "GapImpliesPositive", "SupportCallsBounded">>
+             "ZeroImpliesCommonPoint", "GapImpliesPositive", "SupportCallsBounded", "IterationHelpersAgree">>
 
 Holds(c, r) ==
   LET ok == r.exc = "none" /\ r.finite /\ ~r.clipped
@@ -59,6 +59,7 @@ Holds(c, r) ==
     [] c = "GapImpliesPositive"     -> /\ (ex /\ ClearGap(r)) => r.dpos
                                        /\ (ok /\ ~r.exact /\ r.floatGap) => r.dpos
     [] c = "SupportCallsBounded"    -> r.supportCalls <= MaxSupport
+    [] c = "IterationHelpersAgree"  -> ("helperSame" \in DOMAIN r) => r.helperSame
 
 (* ---------------- boolean tests (C02): kind = "bool" ----------------
    r.answer; the exact certificate as above; r.deep = the harness found a common point at least
@@ -76,6 +77,20 @@ BoolHolds(c, r) ==
                                        /\ (r.exc = "none" /\ ~r.exact /\ r.floatGap) => ~r.answer
     [] c = "SupportCallsBounded"    -> r.supportCalls <= MaxSupport
 BoolFailing(r) == {c \in Range(BoolClauses) : ~BoolHolds(c, r)}
+
+(* ---------------- termination and finiteness (C19): kind = "term" ----------------
+   one record per call of a narrow-phase entry point: r.fn, r.exc (exception class, "Hang" if the
+   watchdog fired, "SupportBudget" if the counting proxy stopped the call after MaxSupport evaluations),
+   r.finite (no NaN / infinity in any output other than the documented MAX_FLOAT clip),
+   r.supportCalls, r.smooth (a collider without flat faces is involved) *)
+TermClauses == <<"NoHang", "SupportCallsBounded", "OnlyDocumentedException", "OutputsFinite">>
+TermHolds(c, r) ==
+  CASE c = "NoHang"                  -> r.exc # "Hang"
+    [] c = "SupportCallsBounded"     -> r.supportCalls <= MaxSupport /\ r.exc # "SupportBudget"
+    [] c = "OnlyDocumentedException" -> \/ r.exc \in {"none", "Hang", "SupportBudget"}
+                                        \/ (r.exc = "AssertionError" /\ r.fn = "epa" /\ r.smooth)
+    [] c = "OutputsFinite"           -> r.exc = "none" => r.finite
+TermFailing(r) == {c \in Range(TermClauses) : ~TermHolds(c, r)}
 
 (* Named trace pattern for a known finding (DESIGN section 8): the query ended on a simplex of 2..4
    points whose smallest extent is below 1e-9 of its largest (flatDec = decimal exponent of that ratio,
